@@ -152,6 +152,13 @@ class Machine:
         if op == "ifexp":
             c = self.cond(e[1], env)
             return self.ev(e[2] if c else e[3], env)
+        if op == "ridx":
+            a, i = self.ev(e[1], env), self.ev(e[2], env)
+            if i is None:
+                raise Unspecified("undefined run-time index")
+            if i >= self.ewidth(e[1]):
+                raise Unspecified("run-time index out of range")
+            return None if a is None else (a >> i) & 1
         if op == "aidx":  # array signal element with run-time or constant index
             arr = self.sig[e[1]] if e[1] in self.sig else self.var[e[1]]
             i = self.ev(e[2], env)
